@@ -1576,6 +1576,28 @@ impl<'p, C: SimCfg> World<'p, C> {
                     if f > conf + mp {
                         self.violate("c04.speculation", i, f, format!("node {i} simulated new frame {f} with confirmed_frame() {conf} and max_prediction {mp}"));
                     }
+                    // the same bound against the ground truth of who is connected, not the session's
+                    // own opinion: a player counts as connected unless its owner has stopped, or the
+                    // timer model of this or any other live node (which may have told this one) has
+                    // disconnected that address
+                    let mut held = i32::MAX;
+                    let mut limiting = None;
+                    for p in 0..np {
+                        let Some(owner) = self.plan.owner_of(p) else { continue };
+                        let gone = owner != i
+                            && (!self.nodes[owner].alive
+                                || self.plan.nodes[owner].tick.stop_us.is_some_and(|t| t <= self.now)
+                                || self.nodes.iter().enumerate().any(|(j, n)| j != owner && n.watch.get(&(owner as Addr)).is_some_and(|w| w.disconnected || w.disc_sent || w.api_disconnected)));
+                        if !gone && conn[p].1 < held {
+                            held = conn[p].1;
+                            limiting = Some(p);
+                        }
+                    }
+                    if let Some(p) = limiting {
+                        if f > held + mp {
+                            self.violate("c04.speculation_past_live_player", i, f, format!("node {i} simulated new frame {f} although the newest input it holds of player {p}, who is connected, is for frame {held} (max_prediction {mp}; the session's own status for that player: {:?})", conn[p]));
+                        }
+                    }
                     if let Some(cp) = c_pre {
                         // no packet can arrive between the explicit poll and the call's own poll at the same instant
                         let _ = cp;
